@@ -1,5 +1,5 @@
 """C03 — capability decisions follow the documented precedence for every database state."""
-import contextlib, copy, io, itertools
+import contextlib, copy, functools, inspect, io, itertools
 import boot
 from lib import wire
 
@@ -11,11 +11,13 @@ RULE = ('corpus first (shapes of past seeded changes: stranger / secure-demoted 
         'mixed-case and rfc1459-pair spellings; ignore) x channel entries (capability subsets, defaultAllow) x global default set x '
         'registeredUsers set x default flag x the three ignore* flags (45% non-default, ignoreDefaultAllow in about a quarter) x asked '
         'capability (plain, anti, channel, anti-channel, case variants, hostile strings; channel NAMES with the rfc1459 case pairs '
-        '[]\\~ / {}|^ stored under one spelling -- sometimes two -- and asked under every other), plus a stream of the AutoMode call shape '
+        '[]\\~ / {}|^ stored under one spelling -- sometimes two -- and asked under every other; channel names of exactly channellen, '
+        'channellen-1 and channellen+1 characters, stored and asked), plus a stream of the AutoMode call shape '
         '(ignoreDefaultAllow, unrecognised sender, channel capabilities, channels with few explicit settings).  Each case: real '
         'ircdb.checkCapability (fresh UsersDictionary/ChannelsDictionary, real conf registry) vs extracted model, twice: on the '
         'channel table read back from the real container, and on the table the model rebuilds itself from the setChannel calls '
-        '(str.lower + IrcDict key); direct oracle = '
+        '(str.lower + IrcDict key); direct oracle (its own reading of the capability syntax -- channel name: chantypes, length <= channellen inclusive, no comma / BEL / '
+        'whitespace -- never the string algebra of the implementation, which it checks word by word instead) = '
         'totality, case variants, anti-symmetry on the flag triples of C03_anti_opposite_flags, and an independent decision-list spec '
         'for EVERY flag triple evaluated on the real objects.  non-trivial = distinct (db, cap, flags)')
 TRUSTED = ['user lookup (users.getUser, checkHostmask) enters this model as an input taken from the real objects; it is modelled in C04',
@@ -28,7 +30,8 @@ LEVEL_TEXT = ('Coq theorems over an executable Gallina model of the capability s
               'ignoreDefaultAllow, and with it for unrecognised senders and plain capabilities; refuted by a witness for the rest), owner '
               'rule, case-insensitivity, refinement of a readable decision-list spec for all three ignore* flags and both members of a '
               '(capability, anti-capability) pair; the answer depends neither on the spelling of the asked channel name nor on the one it '
-              'was stored under (channel table = IrcDict over str.lower, refuted for a table keyed by str.lower alone).  Tie: regenerated '
+              'was stored under (channel table = IrcDict over str.lower, refuted for a table keyed by str.lower alone); the length bound of a channel name is '
+              'inclusive and names of exactly channellen characters take the channel branch of the decision list.  Tie: regenerated '
               'fold table / whitespace set / chantypes / fail-closed pin of ChannelsDictionary.channels, getChannel, setChannel, IrcDict.key / '
               'defaultOff + differential run of the extracted model against the real function on sampled databases.')
 LEVEL_NOTE = ('Trusted: Coq kernel, gen_tables.py, extraction + driver, harness; user lookup is an input (C04); conf registry plumbing is '
@@ -61,12 +64,61 @@ HOSTILE = ['', ' ', 'a b', ' a', 'a ', '-', '--x', '#c,-', '#c, x', ' ', '#c,a 
            '#' + 'c' * 49 + ',x', '#' + 'c' * 50 + ',x', '#c\x07,x', '&c,x', '!c,-x', '+c,x', 'é', '-é', '#é,É']
 
 
+# ---- the oracle's own reading of the capability syntax (NOT the implementation's string algebra: a defect there must not
+# be inherited by the oracle).  A channel capability is '<channel>,<capability>' where <channel> is an IRC channel name: starts
+# with one of the channel-type characters, at most channellen characters long (the boundary length included), no comma, BEL or
+# whitespace; chantypes / channellen are the documented defaults of ircutils.isChannel's signature. ----
+@functools.lru_cache(maxsize=None)
+def o_consts():
+    _, _, ircutils = _mods()
+    ps = inspect.signature(ircutils.isChannel).parameters
+    return ps['chantypes'].default, ps['channellen'].default
+
+
+def o_is_cap(c):
+    return len(c.split()) == 1                 # one word: non-empty, no whitespace inside
+
+
+def o_is_channel(s):
+    chantypes, channellen = o_consts()
+    return bool(s) and ',' not in s and '\x07' not in s and s[0] in chantypes and len(s) <= channellen and o_is_cap(s)
+
+
+def o_chan_split(c):
+    if ',' in c:
+        ch, cap = c.split(',', 1)
+        if o_is_channel(ch) and o_is_cap(cap):
+            return ch, cap
+    return None
+
+
+def o_is_anti(c):
+    p = o_chan_split(c)
+    cap = p[1] if p else c
+    return o_is_cap(cap) and cap[0] == '-'
+
+
+def o_make_anti(c):
+    p = o_chan_split(c)
+    return p[0] + ',-' + p[1] if p else '-' + c
+
+
 def nested(c):
     """class of finding F21: a channel capability whose capability part is itself a channel capability"""
-    ircdb, _, _ = _mods()
-    if not ircdb.isChannelCapability(c):
-        return False
-    return ircdb.isChannelCapability(ircdb.fromChannelCapability(c)[1])
+    p = o_chan_split(c)
+    return p is not None and o_chan_split(p[1]) is not None
+
+
+def boundary_names(L):
+    """channel names at the boundary of channellen: exactly L characters (a channel), L-1, and L+1 (not a channel)"""
+    at, below, above = '#' + 'b' * (L - 1), '#' + 'b' * (L - 2), '#' + 'b' * L
+    return {'at': at, 'below': below, 'above': above,
+            'ask': [at + ',foo', at + ',-foo', at + ',op', at.upper() + ',bar', at + ',-qux', below + ',foo', below + ',-foo',
+                    above + ',foo', above + ',-foo', '&' + at[1:] + ',foo'],
+            'user': [at + ',op', at + ',-foo', below + ',op']}
+
+
+BND = boundary_names(50)
 
 
 CLASSES = {'nested_channel_capability': lambda inp: 'cap' in inp and nested(inp['cap'])}
@@ -82,11 +134,15 @@ def gen_db(rng, kind=None):
     if kind is None:
         kind = rng.choice(['none', 'nomatch', 'match', 'match', 'match', 'match', 'authonly', 'secure-authonly', 'secure-authonly',
                            'secure-match', 'dup'])
-    caps = [c for c in USER_POOL if rng.random() < 0.22]
+    caps = [c for c in USER_POOL + BND['user'] if rng.random() < 0.22]
     chans = {}
     for name in ['#chan', '#other']:
         if rng.random() < 0.6:
             chans[name] = {'caps': [c for c in CHAN_POOL if rng.random() < 0.3], 'default': rng.random() < 0.7}
+    # channel names at the boundary of channellen (exactly channellen characters: still a channel), non-default settings
+    for name, pr in ((BND['at'], 0.4), (BND['below'], 0.15)):
+        if rng.random() < pr:
+            chans[name] = {'caps': [c for c in CHAN_POOL if rng.random() < 0.35], 'default': rng.random() < 0.4}
     # channels whose names contain the rfc1459 case pairs, stored under any spelling (sometimes under two: the later
     # setChannel replaces the earlier entry), mostly with non-default settings so that finding the entry matters
     for base, sp in SPELLINGS.items():
@@ -179,11 +235,9 @@ def wf_cap(c):
 
 
 def parts(ircdb, c):
-    """(channel or None, base, anti) of a well-formed capability, by the real algebra"""
-    if ircdb.isChannelCapability(c):
-        ch, cap = ircdb.fromChannelCapability(c)
-    else:
-        ch, cap = None, c
+    """(channel or None, base, anti) of a well-formed capability, by the oracle's own syntax"""
+    p = o_chan_split(c)
+    ch, cap = p if p else (None, c)
     anti = cap.startswith('-')
     return ch, (cap[1:] if anti else cap), anti
 
@@ -294,9 +348,9 @@ def run_case(ctx, mods, g, cap, fl, mout, kind, asked_h=H_MATCH, mout3=None):
     # capability and anti-capability give opposite answers: every flag triple without ignoreDefaultAllow, and with it unless
     # the sender is a recognised account and the capability a channel capability (C03_anti_opposite_flags; the remaining case
     # is C03_anti_opposite_ignoreDefaultAllow_refuted, a recorded non-finding)
-    if not ircdb.isAntiCapability(cap) and (not fl[2] or effective_user(snap) is None or not ircdb.isChannelCapability(cap)):
+    if not o_is_anti(cap) and (not fl[2] or effective_user(snap) is None or o_chan_split(cap) is None):
         users, channels = build(ircdb, conf, g)
-        anti = ircdb.makeAntiCapability(cap)
+        anti = o_make_anti(cap)
         r3 = impl_check(ircdb, users, channels, asked_h, anti, fl)
         if r3[0] != 'ok' or r3[1] == ir[1]:
             ctx.fail(inp, '%r -> %r but %r -> %r (not opposite)' % (cap, ir, anti, r3))
@@ -378,6 +432,13 @@ def corpus():
     # the later of two stores under spellings of one name wins
     out.append((_db('none', chans={'#dev[ops]': {'caps': ['-foo'], 'default': True}, '#DEV{OPS}': {'caps': ['foo'], 'default': False}}),
                 '#dev[ops},foo', [False, False, False]))
+    # seeded change C03_8 (isChannel: len(s) < channellen): a channel whose name is exactly channellen characters long is a
+    # channel, '<name>,foo' a channel capability: channel op, the channel's explicit setting and its defaultAllow decide
+    at = BND['at']
+    for kind, caps in (('none', ()), ('match', ()), ('match', (at + ',op',)), ('match', (at + ',-foo',))):
+        for cc, dflt in ((['-foo'], True), (['foo'], False), ([], False)):
+            for cap in (at + ',foo', at + ',-foo', at.upper() + ',bar', BND['below'] + ',foo', BND['above'] + ',foo'):
+                out.append((_db(kind, caps, chans={at: {'caps': cc, 'default': dflt}}, flag=True), cap, [False, False, False]))
     # finding F21's witness shape stays in the stream
     out.append((_db('none', chans={'#chan': {'caps': ['#other,-foo'], 'default': True}}), '#chan,#other,foo', [False, False, False]))
     return out
@@ -392,10 +453,12 @@ def run(ctx):
     rng = ctx.rng
     saved = (list(conf.supybot.capabilities()), conf.supybot.capabilities.default())
     try:
+        globals()['BND'] = boundary_names(o_consts()[1])
+        ask = ASK + BND['ask']
         cases = [(g, cap, fl, 'corpus') for g, cap, fl in corpus()]
         for _ in range(ctx.n(2000)):
             g = gen_db(rng)
-            for cap in rng.sample(ASK, 6) + rng.sample(HOSTILE, 1):
+            for cap in rng.sample(ask, 7) + rng.sample(HOSTILE, 1):
                 fl = gen_flags(rng)
                 cases.append((g, cap, fl, 'default-flags' if fl == [False] * 3 else 'ignore-flags'))
         # the AutoMode call shape on senders that are not recognised accounts: ignoreDefaultAllow, channel capabilities, channels
@@ -405,7 +468,7 @@ def run(ctx):
             for name in list(g['chans']):
                 if rng.random() < 0.7:
                     g['chans'][name]['caps'] = [c for c in g['chans'][name]['caps'] if c in ('op', 'bar', '-x{y}')]
-            for cap in rng.sample(CHAN_ASK, 4) + rng.sample(ASK, 1):
+            for cap in rng.sample(CHAN_ASK + BND['ask'], 4) + rng.sample(ask, 1):
                 cases.append((g, cap, [rng.random() < 0.5, rng.random() < 0.5, True], 'automode-unknown'))
         snaps = [snapshot_wire(mods, g, H_MATCH) for g, _, _, _ in cases]
         outs = ctx.model([[0, [sn, cap, fl]] for sn, (g, cap, fl, _) in zip(snaps, cases)])
@@ -413,10 +476,11 @@ def run(ctx):
         outs3 = ctx.model([[3, [sn[:2] + [chan_sets(ircdb, g)] + sn[3:], cap, fl]] for sn, (g, cap, fl, _) in zip(snaps, cases)])
         for (g, cap, fl, kind), mo, mo3 in zip(cases, outs, outs3):
             special = any(ch in cap for sp in SPELLINGS.values() for ch in sp)
+            bnd = any(cap.lower().startswith(BND[k].lower() + ',') or cap[1:].lower().startswith(BND[k][1:] + ',') for k in ('at', 'below', 'above'))
             run_case(ctx, mods, g, cap, fl, mo, kind + ('-hostile' if not wf_cap(cap) or cap in HOSTILE else '')
-                     + ('-pairchan' if special else ''), mout3=mo3)
+                     + ('-pairchan' if special else '') + ('-boundary' if bnd else ''), mout3=mo3)
         # the string algebra on its own
-        words = ASK + HOSTILE + USER_POOL + [a + b for a in ['', '-', '#c,', '#c,-', '#C,'] for b in ['x', 'X y', '', '-', 'é', 'x,y', ' x']]
+        words = ask + HOSTILE + USER_POOL + BND['user'] + [BND['at'], BND['above']] + [a + b for a in ['', '-', '#c,', '#c,-', '#C,'] for b in ['x', 'X y', '', '-', 'é', 'x,y', ' x']]
         outs = ctx.model([[1, w] for w in words])
         for w, mo in zip(words, outs):
             inp = {'algebra': w}
@@ -429,6 +493,9 @@ def run(ctx):
                     return ('raise', type(e).__name__)
             impl = [bool(ircdb.isCapability(w)), bool(ircdb.isChannelCapability(w)), bool(ircdb.isAntiCapability(w)),
                     safe(ircdb.makeAntiCapability), safe(ircdb.unAntiCapability), safe(ircdb.invertCapability), ircutils.toLower(w)]
+            d = algebra_oracle(ircdb, w)
+            if d:
+                ctx.fail(inp, d)
             if mo is not None:
                 model = [bool(mo[0]), bool(mo[1]), bool(mo[2]), wire.r(mo[3], wire.s), wire.r(mo[4], wire.s), wire.r(mo[5], wire.s),
                          wire.s(mo[6])]
@@ -457,11 +524,30 @@ def run(ctx):
         conf.supybot.capabilities.registeredUsers.setValue([])
 
 
+def algebra_oracle(ircdb, w):
+    """the capability syntax of the property text, evaluated on the implementation's string algebra"""
+    got = (bool(ircdb.isCapability(w)), bool(ircdb.isChannelCapability(w)), bool(ircdb.isAntiCapability(w)))
+    want = (o_is_cap(w), o_chan_split(w) is not None, o_is_anti(w))
+    if got != want:
+        return ('%r: (isCapability, isChannelCapability, isAntiCapability) = %r, the capability syntax says %r'
+                % (w, got, want))
+    if o_is_cap(w) and not o_is_anti(w):
+        try:
+            a = ircdb.makeAntiCapability(w)
+        except Exception as e:
+            a = type(e).__name__
+        if a != o_make_anti(w):
+            return 'makeAntiCapability(%r) = %r, the anti-capability is %r' % (w, a, o_make_anti(w))
+    return None
+
+
 def replay(ctx, inp):
     mods = _mods()
     sub = type(ctx)(ctx.pid, ctx.tier, ctx.seed, {'model_ok': False})
     if 'db' in inp:
         run_case(sub, mods, inp['db'], inp['cap'], inp['flags'], None, 'replay', inp.get('hostmask', H_MATCH))
+    elif 'algebra' in inp:
+        return algebra_oracle(mods[0], inp['algebra'])
     return sub.failures[0]['detail'] if sub.failures else None
 
 
